@@ -101,6 +101,6 @@ const ruleRT = "real-time cases (TestExpiry) = 3-6 providers (router x lifetime 
 	"t0/t1 brackets (pending code whose announced lifetime ended > 2 s before the poll began -> expired_token; lifetime still running -> authorization_pending; stalled request -> grey); " +
 	"non-trivial = at least one asserted owner poll of a naturally expired code; distinct = multiset of (router, lifetime, poll interval, decision)"
 
-var propRT = vkit.Prop[Case]{ID: "C16", Rule: ruleHistory + " || " + ruleUC + " || " + ruleRT, Gen: genRTCase, Run: run}
+var propRT = vkit.Prop[Case]{ID: "C16", Rule: ruleAll, Gen: genRTCase, Run: run}
 
 func TestExpiry(t *testing.T) { propRT.Check(t) }
